@@ -8,7 +8,7 @@ use duckscript::types::runtime::Context;
 use serde_json::{json, Value};
 use std::sync::{Arc, Mutex};
 
-const VALS: [&str; 14] = ["", " ", "   ", "a", "a b", " a ", "x=y", "\\", "a\\b", "é", "0", "false", "-r", "two  spaces"];
+const VALS: [&str; 19] = ["", " ", "   ", "a", "a b", " a ", "x=y", "\\", "a\\b", "é", "0", "false", "-r", "two  spaces", "\t", "a\t", "\ta", "a\tb", "\u{a0}"];
 
 pub fn gen(r: &mut Rng) -> Value {
     if r.chance(1, 5) {
@@ -29,6 +29,7 @@ fn quote(s: &str) -> String {
             '"' => o.push_str("\\\""),
             '\n' => o.push_str("\\n"),
             '\r' => o.push_str("\\r"),
+            '\t' => o.push_str("\\t"),
             c => o.push(c),
         }
     }
